@@ -20,7 +20,7 @@ func c14ClientAuth(c *Ctx) {
 	r := c.R
 	r.Rule("C14.R6", "server side: the ClientAuth option passed to pion/dtls defaults to RequireAnyClientCert (a client that sends no certificate must not complete the handshake unverified); the only other source is the SettingEngine override field", 2)
 	fi := c.mustFunc("C14.R6", "", "DTLSTransport.toDTLSServerOptions")
-	withCA := c.P.ExternalFunc("github.com/pion/dtls/v3", "WithClientAuth")
+	withCA := c.P.ExternalFuncObj("github.com/pion/dtls/v3", "WithClientAuth")
 	fOverride := c.P.FieldDeep("", "SettingEngine", "dtls", "clientAuth")
 	if fi == nil {
 		return
